@@ -12,6 +12,8 @@ import Ajson.Proofs.WFInv
 import Ajson.Proofs.WFRemove
 import Ajson.Proofs.WFMove
 import Ajson.Proofs.Frame
+import Ajson.Proofs.History
+import Ajson.Proofs.Sides
 import Ajson.Model.Decode
 
 namespace Ajson.Props.C05
@@ -72,6 +74,34 @@ theorem C05_inv_append_array_any {h : Heap} (hs : Struct h) (ha : Acyc h) (n val
     (harr : (h.get n).type = .array) (hloop : h.isParentOrSelfNode n value = false) :
     (h.appendArray n [value]).2 = .ok () ∧ Struct (h.appendArray n [value]).1 ∧ Acyc (h.appendArray n [value]).1 :=
   struct_appendArray_any hs ha n value hn hv harr hloop
+
+/-! ### any history
+
+`Edit` (Proofs/History) lists the requests whose single steps are proved: the four scalar setters, DeleteKey, DeleteIndex, Delete and
+AppendArray of one node (fresh, detached or attached anywhere — then it is moved). `Edit.run` applies one to a heap and keeps the heap
+whether the library accepts or rejects the request. -/
+
+/-- **after any edit history**: every finite sequence of these requests, addressed to ANY nodes of a sound acyclic heap (receivers and
+arguments fresh, attached elsewhere, detached earlier, descendants or ancestors of each other — loop requests are rejected and change
+nothing), leaves a sound acyclic heap of the same size -/
+theorem C05_any_history (es : List Edit) (h : Heap) (hs : Struct h) (ha : Acyc h) (hn : ∀ e ∈ es, ∀ x ∈ e.names, x < h.size) :
+    Struct (es.foldl Edit.run h) ∧ Acyc (es.foldl Edit.run h) ∧ (es.foldl Edit.run h).size = h.size :=
+  history_sound es h hs ha hn
+
+/-- … in particular starting from any parsed document -/
+theorem C05_any_history_of_a_parsed_document (data : Bytes) (v : Spec.STree) (hp : Spec.parseRef data = .ok v) :
+    ∃ H, unmarshal data = .ok (H, 0) ∧ ∀ es : List Edit, (∀ e ∈ es, ∀ x ∈ e.names, x < H.size) →
+      Struct (es.foldl Edit.run H) ∧ Acyc (es.foldl Edit.run H) := by
+  obtain ⟨H, hu, hs, ha⟩ := acyc_unmarshal data v hp
+  exact ⟨H, hu, fun es hn => let r := history_sound es H hs ha hn; ⟨r.1, r.2.1⟩⟩
+
+/-- **everything not addressed is unchanged — for whole histories**: when the nodes in play fall into two sides that do not point at
+each other (`Closed`: parents and children of a side stay on that side — e.g. different documents, a detached subtree and the rest,
+a clone and everything older), any history of edits that names only nodes of one side leaves every record of the other side as it
+is. No invariant is needed beyond the closedness of the two sides. -/
+theorem C05_any_history_leaves_the_other_side (es : List Edit) (H : Heap) (P : Nat → Prop) (cP : Closed H P) (cN : Closed H (fun x => ¬ P x))
+    (hn : ∀ e ∈ es, ∀ x ∈ e.names, P x) (m : Nat) (hm : ¬ P m) : (es.foldl Edit.run H).get m = H.get m :=
+  history_side es H P cP cN hn m hm
 
 /-! ### everything not addressed is unchanged
 
